@@ -195,6 +195,42 @@ def view_case(fam, ty, shape, dst, srcs, op, rhs, isa, viewtxt, parent='own', st
                                                 '+'.join('s' + ','.join(rtag(r) for r in s) for s in srcs), rhs, parent, cfg.tag())
     return Case(cid, 'C18', body, [a], ens, mode, cfg)
 
+def flat_src_case(ty, shape, dst, lo, op, isa, how='flatten', noalias=True):
+    """A(dst rows, dst cols).noalias() op= flatten(A)(seq(lo, lo+count)): the source is a 1-D slice of a map onto the
+    same storage (different rank than the destination view); snapshot semantics required all the same."""
+    n = prod(shape)
+    a = Buf('a', ty, n, 'inout')
+    mode, cfg = mode_cfg(ty, isa)
+    D = positions(shape, dst); cnt = len(D)
+    assert lo >= 0 and lo + cnt <= n
+    src = 'flatten(A)(seq(%d,%d))' % (lo, lo + cnt) if how == 'flatten' else 'reshape<%d>(A)(seq(%d,%d))' % (n, lo, lo + cnt)
+    decl, out = parent_decl(ty, shape, 'own')
+    stmt = 'A(%s)%s %s %s;' % (','.join(seq_txt(r) for r in dst), '.noalias()' if noalias else '', op, src)
+    body = '    %s\n    %s\n    %s' % (decl, stmt, out)
+    new = {d: apply_op(op, E.inp(a, d), E.inp(a, lo + k)) for k, d in enumerate(D)}
+    ens = [(a, p, new.get(p, E.inp(a, p))) for p in range(n)]
+    cid = 'C18/seq2d-from-flat/%s/%s/%s/d%s/%s%d/%s' % (ty.name, shp(shape), OPS[op], ','.join(rtag(r) for r in dst), how, lo, cfg.tag())
+    return Case(cid, 'C18', body, [a], ens, mode, cfg)
+
+def bool_view_case(N, d, s, rhs, isa):
+    """Tensor<bool,N>: b(d).noalias() = !b(s)  /  = (b(s) == c(s)): boolean right-hand sides take their own early-out path
+    in the view assignment; the snapshot requirement is the same."""
+    a = Buf('a', BOOL, N, 'in'); c = Buf('c', BOOL, N, 'in'); o = Buf('o', BOOL, N, 'out')
+    cfg = Cfg(isa)
+    D = rpos(d); S = rpos(s)
+    assert len(D) == len(S)
+    src = 'B(%s)' % seq_txt(s)
+    txt = {'not': '!%s' % src, 'eq': '(%s == C(%s))' % (src, seq_txt(s))}[rhs]
+    body = ('    Tensor<bool,%d> B(a); Tensor<bool,%d> C(c);\n    B(%s).noalias() = %s;\n    %s'
+            % (N, N, seq_txt(d), txt, copy_out('B', 'o', N)))
+    new = {}
+    for k, p in enumerate(D):
+        x = E.inp(a, S[k])
+        new[p] = x.bnot() if rhs == 'not' else x.same(E.inp(c, S[k]))
+    ens = [(o, p, new.get(p, E.inp(a, p))) for p in range(N)]
+    return Case('C18/bool-seq1d/bool/%d/set/d%s/s%s/%s/%s' % (N, rtag(d), rtag(s), rhs, cfg.tag()), 'C18', body, [a, c, o], ens, 'SYM', cfg,
+                requires=is_bool(a, N) + is_bool(c, N))
+
 def twice_case(ty, N, d, s, op1, op2, kind, isa, viewtxt=seq_txt):
     """one view object used for two assignments.
     kind 'remark'  : v.noalias() op1= A(s); v.noalias() op2= A(s);      snapshot semantics both times
@@ -522,6 +558,16 @@ def cases(tier, seed):
             out.append(mask_case(INT, shape, rng.choice(INT_OPS), 'v', isa, 'whole', noalias=True))
             ty = ftype()
             out.append(mask_case(ty, shape, rng.choice(ALL_OPS), rhs1(ty), isa, 'whole', noalias=bool(rng.getrandbits(1))))
+    # ---- source of a different rank over the same storage; boolean right-hand sides (second round of seeds) ----
+    for isa in isas(tier):
+        for ty in (INT, FLT):
+            for (shape, dst, lo) in [((4, 7), [(1, 4, 1), (2, 6, 1)], 3), ((3, 5), [(0, 2, 1), (1, 5, 1)], 6)] + ([((5, 9), [(1, 5, 2), (0, 9, 3)], 20)] if T else []):
+                for op in (ops_for(ty) if T else (['=', '+=', '-='] if ty is INT else ['=', '*=', '/='])):
+                    out.append(flat_src_case(ty, shape, dst, lo, op, isa))
+            out.append(flat_src_case(ty, (4, 7), [(1, 4, 1), (2, 6, 1)], 3, '=', isa, how='reshape'))
+        for (N, d, s_) in [(9, (1, 9, 1), (0, 8, 1)), (10, (2, 10, 2), (0, 8, 2)), (7, (0, 4, 1), (3, 7, 1))]:
+            for rhs in ('not', 'eq'):
+                out.append(bool_view_case(N, d, s_, rhs, isa))
     seen = set(); res = []
     for c in out:
         if c.cid not in seen: seen.add(c.cid); res.append(c)
